@@ -54,6 +54,10 @@ pub enum UStep {
         #[serde(default)]
         buffered_ka: bool,
     },
+    /// the application starts a read while nothing is queued and drops it after its first poll
+    /// (select! with a branch that is ready at once); later datagrams must be unaffected
+    /// (tokio adaptor only)
+    CancelledRead,
     /// the application reads while nothing is queued: the socket's (short) read timeout makes
     /// the adaptor's receive fail with a transient error; later datagrams must be unaffected
     /// (blocking adaptor only)
@@ -78,6 +82,8 @@ enum UEv {
     Wrote { res: AppRes },
     PeerGot { dgram: String },
     Idle { res: AppRes },
+    /// outcome of a read dropped after one poll: None = it was pending (expected)
+    Cancelled { completed: Option<AppRes> },
     /// peer restarted; results of the write while it was down and of the writes afterwards,
     /// each with the datagrams the new peer socket received right after it
     Bounced {
@@ -274,6 +280,7 @@ fn run_udp(sc: &UdpSc) -> UdpRun {
                         }
                         events.push(UEv::Bounced { lost: lost_res, after: results, pre, down, tail });
                     },
+                    UStep::CancelledRead => {},
                     UStep::IdleRead => {
                         let r = guarded(|| framed.read());
                         let res = match r {
@@ -391,6 +398,15 @@ fn run_udp(sc: &UdpSc) -> UdpRun {
                             events.push(UEv::Bounced { lost: lost_res, after: results, pre, down, tail });
                         },
                         UStep::IdleRead => {},
+                        UStep::CancelledRead => {
+                            let completed = match tokio::time::timeout(Duration::ZERO, framed.read()).await {
+                                Err(_) => None,
+                                Ok(Ok(p)) => Some(AppRes::Pkt(format!("{:?}", p))),
+                                Ok(Err(e)) => Some(AppRes::from_err(&e)),
+                            };
+                            events.push(UEv::Cancelled { completed });
+                            drain_peer(&peer, &mut events);
+                        },
                         UStep::Write(f) => {
                             let Some(p) = ref_decode_packet(sc.mode, f).1 else { continue };
                             let res = match tokio::time::timeout(OP_TIMEOUT, framed.write(p)).await {
@@ -499,6 +515,7 @@ impl Prop for C08 {
         let max_frames = *rng.pick(&[1usize, 1, 2, 4, 16, 64]);
         let idle_reads = rng.chance(1, 3);
         let bounces = rng.chance(1, 3);
+        let cancels = rng.chance(1, 2);
         let mut steps = Vec::new();
         let mut sent = 0usize;
         let mut notes = Vec::new();
@@ -544,6 +561,9 @@ impl Prop for C08 {
             }
             if idle_reads && imp == Imp::Blocking && rng.chance(1, 30) {
                 steps.push(UStep::IdleRead);
+            }
+            if imp == Imp::Tokio && cancels && rng.chance(1, 6) {
+                steps.push(UStep::CancelledRead);
             }
             if bounces && rng.chance(1, 40) {
                 steps.push(UStep::Bounce {
@@ -687,6 +707,25 @@ impl Prop for C08 {
                     }
                     if kas > 0 {
                         rep.probe("keepalive_over_udp");
+                    }
+                },
+                UStep::CancelledRead => {
+                    if sc.imp != Imp::Tokio {
+                        continue;
+                    }
+                    match next(&mut ev_i) {
+                        Some(UEv::Cancelled { completed }) => {
+                            rep.fault("read_dropped_after_first_poll");
+                            if let Some(r) = completed {
+                                rep.violations.push(v("udp.phantom_result", format!("{} a read started with nothing queued completed at once with {:?}", tag, r)));
+                                break 'steps;
+                            }
+                        },
+                        _ => break 'steps,
+                    }
+                    if let Some(UEv::PeerGot { dgram }) = evs.get(ev_i) {
+                        rep.violations.push(v("udp.unsolicited_datagram", format!("{} the peer received {} during a dropped read", tag, dgram)));
+                        break 'steps;
                     }
                 },
                 UStep::IdleRead => {
@@ -968,6 +1007,7 @@ impl Prop for C08 {
             "recv_timeout_error",
             "peer_crash_and_restart",
             "crash_with_buffered_keepalive",
+            "read_dropped_after_first_poll",
             "unencodable_packet_written",
             "blocking_runs",
             "tokio_runs",
